@@ -298,6 +298,17 @@ func panicSignature(stderr string) (kind, frame string) {
 	return line, frame
 }
 
+// saveInconclusive keeps the case and outcome of a candidate that did not reproduce in isolation
+// under the build directory (never under replays/): material for studying schedule-dependent
+// observations by hand.
+func (d *driver) saveInconclusive(f failure) {
+	dir := filepath.Join(d.build, "inconclusive")
+	os.MkdirAll(dir, 0o755)
+	h := sha1.Sum(f.Case)
+	b, _ := json.MarshalIndent(map[string]interface{}{"property": d.id, "case": f.Case, "outcome": f.Outcome, "shard": f.shard}, "", " ")
+	os.WriteFile(filepath.Join(dir, hex.EncodeToString(h[:6])+".json"), b, 0o644)
+}
+
 // panicInLibrary reports whether the goroutine that panicked has a frame of hslam/rpc itself on
 // its stack (the panic may surface in a dependency the library called into).
 func panicInLibrary(stderr string) bool {
@@ -318,6 +329,11 @@ func panicInLibrary(stderr string) bool {
 		block = block[:end]
 	}
 	for _, line := range strings.Split(block, "\n") {
+		if strings.HasPrefix(line, "verif/harness") {
+			// the panic was raised in (or below a callback into) harness code: a harness defect,
+			// never evidence against the library
+			return false
+		}
 		if strings.HasPrefix(line, "github.com/hslam/rpc.") || strings.HasPrefix(line, "created by github.com/hslam/rpc.") {
 			return true
 		}
@@ -659,6 +675,7 @@ func (d *driver) run(replay string) int {
 			if (f.Outcome.Timing || f.crash) && !libCrash {
 				inconclusive++
 				d.logf("not reproduced alone (%s) -> inconclusive", rate)
+				d.saveInconclusive(f)
 				if f.crash {
 					undecided = append(undecided, fmt.Sprintf("%s: worker died but the open case does not reproduce it\n%s", f.shard, tail(f.stderr, 3000)))
 				}
